@@ -254,6 +254,30 @@ Proof.
   - vm_compute. repeat split.
 Qed.
 
+(* fee-schedule changes mid-history (SetFees): a stranger is refused, a schedule summing to 100 % is refused, the owner's valid one is
+   stored; the fee pending from the earlier swap stays owed and nothing is added to it once the protocol fee is zero *)
+Definition fc_l : list op :=
+  [Provide 0 (1000000000, 1000000000, 1000000000); Swap 1 0 1 5000000 None; SetFees false (mkFees 0 1000000000000000 0);
+   SetFees true (mkFees 500000000000000000 500000000000000000 0); SetFees true (mkFees 0 1000000000000000 0);
+   Provide 1 (10000000, 1, 500); Swap 1 2 1 9000000 None; Withdraw 0 1000000000].
+Lemma fc_l_ok : Forall (op_ok 4) fc_l.
+Proof. unfold fc_l. repeat (apply Forall_cons || apply Forall_nil); cbn [op_ok]; unfold fees_nonneg; cbn [f_protocol f_swap f_burn]; lia. Qed.
+Example C04_pool_fee_change_nonvacuous :
+  exists p0, init_pool 1000 12345 (mkFees 1000000000000000 3000000000000000 1000000000000000) (false, true, false) 4 = Ok p0 /\
+  Forall (op_ok 4) fc_l /\
+  (p_supply (run p0 fc_l), p_fee (run p0 fc_l), p_all (run p0 fc_l), p_fees (run p0 fc_l)) =
+    (2010000368, (0, 4999, 0), (0, 4999, 0), mkFees 0 1000000000000000 0) /\
+  pool_inv (run p0 fc_l).
+Proof.
+  eexists. split; [reflexivity|]. split; [exact fc_l_ok|]. split; [vm_compute; reflexivity|].
+  match goal with |- pool_inv (run ?p _) =>
+    assert (HI : pool_inv p /\ length (p_lp p) = 4%nat) end.
+  { match goal with |- pool_inv ?p /\ _ =>
+      destruct (init_pool_inv 1000 12345 (mkFees 1000000000000000 3000000000000000 1000000000000000) (false, true, false) 4%nat p eq_refl) as (A & B & _) end;
+      [unfold fees_nonneg; cbn [f_protocol f_swap f_burn]; lia | split; assumption]. }
+  destruct HI as [A B]. apply (run_inv 4%nat fc_l _ fc_l_ok B A).
+Qed.
+
 Print Assumptions C04_amp_between.
 Print Assumptions C04_amp_linear.
 Print Assumptions C04_amp_monotone.
